@@ -83,6 +83,12 @@ def cases(tier: str, seed: int) -> list[dict]:
             ev = [{"a": "Detect", "obj": 1}, {"a": "Register", "cls": rng.choice(["X", "Y"])}, {"a": "Detect", "obj": 1},
                   {"a": "Register", "cls": rng.choice(["X", "Y"])}, {"a": "Detect", "obj": 1}, {"a": "Detect", "obj": 1}]
             out.append({"src": "vec", "init": [c], "events": ev})
+            if ll in ("1d", "2d") and bits in (0, 1, 3):    # CF coordinates marked in the other allowed ways
+                for variant in (1, 2):
+                    out.append({"src": "vec", "init": [c], "events": [dict(e) for e in ev], "variant": variant})
+            if bits & 16 and not bits & 32:      # a mesh variable that is not a 2-D mesh: every way of writing that
+                for variant in (1, 2):
+                    out.append({"src": "vec", "init": [c], "events": [dict(e) for e in ev], "variant": variant})
     # (b) behaviours from TLC.  MC_C11_defs!TheContents as canonical indexes:
     the_contents = [encode("1d", 0, 10, 0), encode("2d", 1 + 2, 0, 30), encode("none", 8 + 32, 20, 0), encode("mixed", 1 + 8 + 16, 0, 0)]
     beh = _emit(3 if tier == "quick" else 4, 300 if tier == "quick" else 3000, seed)
@@ -93,7 +99,7 @@ def cases(tier: str, seed: int) -> list[dict]:
             continue
         seen.add(key)
         init = [the_contents[k - 1] for k in b["init"] if k != 0]
-        out.append({"src": "mc", "init": init, "events": b["hist"]})
+        out.append({"src": "mc", "init": init, "events": b["hist"], "variant": len(out) % 3})
     return out
 
 
@@ -104,11 +110,24 @@ def nontrivial(case: dict) -> bool:
     return len(case["events"]) >= 2
 
 
-def build_dataset(idx: int) -> xarray.Dataset:
+def build_dataset(idx: int, variant: int = 0) -> xarray.Dataset:
+    """variant chooses among the concretisations of one and the same feature vector (e.g. how 'not a 2-D mesh' is written)"""
     f = decode(idx)
     dv = {}
     z = numpy.zeros
-    if f["ll"] == "1d":
+    # how the latitude / longitude variables are marked (CF allows units in several spellings, standard_name, axis)
+    style = [({"units": "degrees_north"}, {"units": "degrees_east"}, {"standard_name": "latitude"}, {"standard_name": "longitude"}),
+             ({"axis": "Y"}, {"axis": "X"}, {"units": "degree_N"}, {"units": "degreesE"}),
+             ({"standard_name": "latitude"}, {"units": "degree_east"}, {"axis": "Y"}, {"axis": "X"})][variant % 3]
+    if variant % 3 != 0 and f["ll"] in ("1d", "2d"):
+        a1, o1, a2, o2 = style
+        if f["ll"] == "1d":
+            dv["lat"] = xarray.DataArray(z(2), dims=["y"], attrs=a1)
+            dv["lon"] = xarray.DataArray(z(3), dims=["x"], attrs=o1)
+        else:
+            dv["lat"] = xarray.DataArray(z((2, 3)), dims=["y", "x"], attrs=a2)
+            dv["lon"] = xarray.DataArray(z((2, 3)), dims=["y", "x"], attrs=o2)
+    elif f["ll"] == "1d":
         dv["lat"] = xarray.DataArray(z(2), dims=["y"], attrs={"units": "degrees_north"})
         dv["lon"] = xarray.DataArray(z(3), dims=["x"], attrs={"units": "degrees_east"})
     elif f["ll"] == "2d":
@@ -124,7 +143,13 @@ def build_dataset(idx: int) -> xarray.Dataset:
             dv[n] = xarray.DataArray(z((2, 2)), dims=["a_" + n[2:], "b_" + n[2:]])
     if f["meshvar"]:
         attrs = {"cf_role": "mesh_topology", "node_coordinates": "nx ny", "face_node_connectivity": "fn"}
-        attrs["topology_dimension"] = 2 if f["topo2"] else 1
+        if f["topo2"]:
+            attrs["topology_dimension"] = 2
+        elif variant % 3 == 0:
+            attrs["topology_dimension"] = 1
+        elif variant % 3 == 2:
+            attrs["topology_dimension"] = 3
+        # variant 1: the attribute is missing altogether
         dv["Mesh"] = xarray.DataArray(numpy.int32(0), attrs=attrs)
     ds = xarray.Dataset(dv)
     if f["ems"]:
@@ -158,7 +183,7 @@ def execute(case: dict) -> dict:
     _registry.registry = _registry.ConventionRegistry()
     try:
         eps = [c.__name__ for c in _registry.registry.entry_point_conventions]
-        objs = [build_dataset(c) for c in case["init"]]
+        objs = [build_dataset(c, case.get("variant", 0)) for c in case["init"]]
         contents = list(case["init"])
         convs: list = []          # convention objects by id (position + 1), in order of first appearance
         ids: dict[int, int] = {}
